@@ -61,6 +61,7 @@ type rmsg struct {
 	startErr error
 	big      bool  // body larger than the client's write buffer
 	atomic   bool  // the caller uses the all-or-nothing Body instead of BodyNonAtomic
+	ctxDone  bool  // the caller's context is already done when the body is handed in
 	bodyErr  error // result of the atomic Body
 	rcptErr  map[string]error
 	status   map[string]error
@@ -243,6 +244,7 @@ func (w *world) gen() {
 		m.utf8 = true
 		m.atomic = s.T.Choose(st, 4) == 0
 		m.big = s.T.Choose(st, 3) == 0
+		m.ctxDone = s.T.Choose(st, 10) == 0
 		w.msgs = append(w.msgs, m)
 	}
 	w.concurrent = len(w.msgs) >= 2 && s.T.Choose(st, 4) == 0
@@ -609,7 +611,17 @@ func (w *world) deliver(i int, m *rmsg) {
 		return
 	}
 	sc := &collector{m: m}
-	d.(module.PartialDelivery).BodyNonAtomic(ctx, sc, h, buffer.MemoryBuffer{Slice: m.body()})
+	bctx := ctx
+	if m.ctxDone {
+		// the caller's context is over by the time the body is handed in (a
+		// deadline, a session that is going away): whatever the target makes of
+		// that, every accepted recipient still gets exactly one result
+		c, cancel := context.WithCancel(ctx)
+		cancel()
+		bctx = c
+		s.Stat("fault_caller_context_done_before_body")
+	}
+	d.(module.PartialDelivery).BodyNonAtomic(bctx, sc, h, buffer.MemoryBuffer{Slice: m.body()})
 	m.bodyDone = true
 	anyOK := false
 	for _, r := range accepted {
